@@ -123,6 +123,12 @@ def configs(ss):
                                           demographics=dem(), dur=12, rand_seed=seed, verbose=0,
                                           interventions=ss.treat_num(product=ss.Tx(tx_df([('flu', 'infected', 'recovered', 1.0), ('rsv', 'infected', 'recovered', 0.9)])), prob=0.7, max_capacity=20,
                                                                      eligibility=lambda sim: sim.diseases.flu.infected.uids.union(sim.diseases.rsv.infected.uids))),
+        # one product whose table lists an SIS row first and an SIR row with another post-treatment state
+        'SIS+SIR one Tx': lambda seed: ss.Sim(n_agents=200, diseases=[ss.SIS(init_prev=0.3, beta=0.2), ss.SIR(init_prev=0.3, beta=0.2, dur_inf=8)], networks=ss.RandomNet(), demographics=dem(), dur=12, rand_seed=seed, verbose=0,
+                                              interventions=ss.treat_num(product=ss.Tx(tx_df([('sis', 'infected', 'susceptible', 0.9), ('sir', 'infected', 'recovered', 0.9)])), prob=0.7, max_capacity=25,
+                                                                         eligibility=lambda sim: sim.diseases.sis.infected.uids.union(sim.diseases.sir.infected.uids))),
+        # two co-circulating diseases transmitted through one mixing pool
+        'SIS+SIR pool': lambda seed: ss.Sim(n_agents=200, diseases=[ss.SIS(init_prev=0.2), ss.SIR(init_prev=0.2, dur_inf=5)], networks=ss.MixingPool(beta=ss.beta(0.5), contacts=ss.poisson(3)), demographics=dem(), dur=12, rand_seed=seed, verbose=0),
         'SIR+SIS': lambda seed: ss.Sim(n_agents=120, diseases=[ss.SIR(init_prev=0.1, p_death=0.3, beta=0.2), ss.SIS(init_prev=0.1, beta=0.2)], networks=ss.RandomNet(), demographics=dem(), dur=10, rand_seed=seed, verbose=0),
     }
     return cf
